@@ -53,11 +53,11 @@ Theorem savepoint_restores :
 Proof. exact savepoint_restores_obs_l. Qed.
 
 (* lookups through the secondary (non-unique) index are restored as well on tables without an
-   integer primary key (with one: finding class 3) *)
+   integer primary key when the body does not UPDATE the indexed column (otherwise: finding class 3) *)
 Theorem rollback_restores_secondary :
   forall sch st body fin,
     int_pk sch = false -> inv sch st -> no_bare st ->
-    clean_run sch [] body (st, Some (mkTxn [] [])) = true ->
+    clean_run sch [] body (st, Some (mkTxn [] [])) = true -> forallb sec_clean body = true ->
     fin = ORollback \/ fin = ODrop ->
     forall v, lookup1 sch (fst (run sch (OBegin :: body ++ [fin]) (st, None))) v = lookup1 sch st v.
 Proof. exact rollback_restores_secondary_l. Qed.
@@ -67,6 +67,7 @@ Theorem savepoint_restores_secondary :
     int_pk sch = false -> inv sch st -> no_bare st -> zin n (names_of (sps t)) = false ->
     clean_run sch (names_of (sps t) ++ [n]) body
               (st, Some (mkTxn (wlog t) (sps t ++ [(n, length (wlog t))]))) = true ->
+    forallb sec_clean body = true ->
     forall v, lookup1 sch (fst (run sch (OSave n :: body ++ [ORollTo n]) (st, Some t))) v = lookup1 sch st v.
 Proof. exact savepoint_restores_secondary_l. Qed.
 
@@ -81,7 +82,6 @@ Proof. exact undo_insert_inverts_l. Qed.
 Theorem undo_update_inverts :
   forall sch st sc v w r st2 es,
     inv sch st -> is_c0 sc && keyed sch = false ->
-    (int_pk sch = false \/ forallb live (upd_sel sch st sc w) = true) ->
     do_update sch st sc v w = (r, st2, es) ->
     core3 (undo_list sch es st2) = core3 st.
 Proof. exact undo_update_inverts_l. Qed.
@@ -122,18 +122,18 @@ Theorem rollback_secidx_refuted :
   exists sch p body v, lookup1 sch (rolled_back sch (reach sch p) body) v <> lookup1 sch (reach sch p) v.
 Proof. exact rollback_secidx_refuted_l. Qed.
 
-Theorem rollback_tombstone_refuted :
-  exists sch p body r, ins_ok sch (rolled_back sch (reach sch p) body) r = false /\ ins_ok sch (reach sch p) r = true.
-Proof. exact rollback_tombstone_refuted_l. Qed.
+Theorem rollback_secidx_intpk_refuted :
+  exists sch p body v, lookup1 sch (rolled_back sch (reach sch p) body) v <> lookup1 sch (reach sch p) v.
+Proof. exact rollback_secidx_intpk_refuted_l. Qed.
 
 Theorem rollback_partial_insert_refuted :
   exists sch p body, count_star (rolled_back sch (reach sch p) body) <> count_star (reach sch p).
 Proof. exact rollback_partial_insert_refuted_l. Qed.
 
 Theorem rollback_rowid_refuted :
-  exists sch p body tail v,
-    lookup0 sch (fst (run sch tail (rolled_back sch (reach sch p) body, None))) v
-    <> lookup0 sch (fst (run sch tail (reach sch p, None))) v.
+  exists sch p body tail o,
+    fst (exec sch o (run sch tail (rolled_back sch (reach sch p) body, None)))
+    <> fst (exec sch o (run sch tail (reach sch p, None))).
 Proof. exact rollback_rowid_refuted_l. Qed.
 
 (* non-vacuity: the invariant holds of the empty table, and a body with two INSERTs, nested
@@ -173,7 +173,7 @@ Check savepoint_restores :
 Check rollback_restores_secondary :
   forall sch st body fin,
     int_pk sch = false -> inv sch st -> no_bare st ->
-    clean_run sch [] body (st, Some (mkTxn [] [])) = true ->
+    clean_run sch [] body (st, Some (mkTxn [] [])) = true -> forallb sec_clean body = true ->
     fin = ORollback \/ fin = ODrop ->
     forall v, lookup1 sch (fst (run sch (OBegin :: body ++ [fin]) (st, None))) v = lookup1 sch st v.
 Check savepoint_restores_secondary :
@@ -181,6 +181,7 @@ Check savepoint_restores_secondary :
     int_pk sch = false -> inv sch st -> no_bare st -> zin n (names_of (sps t)) = false ->
     clean_run sch (names_of (sps t) ++ [n]) body
               (st, Some (mkTxn (wlog t) (sps t ++ [(n, length (wlog t))]))) = true ->
+    forallb sec_clean body = true ->
     forall v, lookup1 sch (fst (run sch (OSave n :: body ++ [ORollTo n]) (st, Some t))) v = lookup1 sch st v.
 Check undo_insert_inverts :
   forall sch st rows r st2 es,
@@ -190,7 +191,6 @@ Check undo_insert_inverts :
 Check undo_update_inverts :
   forall sch st sc v w r st2 es,
     inv sch st -> is_c0 sc && keyed sch = false ->
-    (int_pk sch = false \/ forallb live (upd_sel sch st sc w) = true) ->
     do_update sch st sc v w = (r, st2, es) ->
     core3 (undo_list sch es st2) = core3 st.
 Check savepoint_stack_lifo :
@@ -213,14 +213,14 @@ Check rollback_keyupdate_uniq_refuted :
   exists sch p body r, ins_ok sch (rolled_back sch (reach sch p) body) r = true /\ ins_ok sch (reach sch p) r = false.
 Check rollback_secidx_refuted :
   exists sch p body v, lookup1 sch (rolled_back sch (reach sch p) body) v <> lookup1 sch (reach sch p) v.
-Check rollback_tombstone_refuted :
-  exists sch p body r, ins_ok sch (rolled_back sch (reach sch p) body) r = false /\ ins_ok sch (reach sch p) r = true.
+Check rollback_secidx_intpk_refuted :
+  exists sch p body v, lookup1 sch (rolled_back sch (reach sch p) body) v <> lookup1 sch (reach sch p) v.
 Check rollback_partial_insert_refuted :
   exists sch p body, count_star (rolled_back sch (reach sch p) body) <> count_star (reach sch p).
 Check rollback_rowid_refuted :
-  exists sch p body tail v,
-    lookup0 sch (fst (run sch tail (rolled_back sch (reach sch p) body, None))) v
-    <> lookup0 sch (fst (run sch tail (reach sch p, None))) v.
+  exists sch p body tail o,
+    fst (exec sch o (run sch tail (rolled_back sch (reach sch p) body, None)))
+    <> fst (exec sch o (run sch tail (reach sch p, None))).
 
 Print Assumptions rollback_restores.
 Print Assumptions rollback_restores_storage.
@@ -237,6 +237,6 @@ Print Assumptions rollback_delete_textpk_refuted.
 Print Assumptions rollback_keyupdate_intpk_refuted.
 Print Assumptions rollback_keyupdate_uniq_refuted.
 Print Assumptions rollback_secidx_refuted.
-Print Assumptions rollback_tombstone_refuted.
+Print Assumptions rollback_secidx_intpk_refuted.
 Print Assumptions rollback_partial_insert_refuted.
 Print Assumptions rollback_rowid_refuted.
